@@ -32,7 +32,7 @@ Definition w_pivot : list vprow :=
   [mk_prow [VStr "a"] [VStr "x"] [VInt 4]; mk_prow [VStr "b"] [VStr "x"] [VInt 1]; mk_prow [VStr "b"] [VStr "x"] [VInt 3]].
 
 Theorem pivot_singleton_func_skipped_refuted :
-  sf_cells (M_pivot_v (VInt 0) false false [VStr "v"] [(VStr "", ALen)] w_pivot) = [[VInt 4]; [VInt 2]] /\
+  sf_cells (M_pivot tup_eqb tup_eqb sort_tups sort_tups apply_nfunc true true (VInt 0) 1 [(VStr "", ALen)] w_pivot) = [[VInt 4]; [VInt 2]] /\
   sf_cells (S_pivot_v (VInt 0) false false [VStr "v"] [(VStr "", ALen)] w_pivot) = [[VInt 1]; [VInt 2]] /\
   ~ singleton_idem apply_nfunc (VStr "", ALen).
 Proof.
